@@ -37,11 +37,11 @@ void dw_tick(dw_iface *d) {
     W.in_tick = 0;
 }
 
-void dw_frame(dw_iface *d, void *recvBuffer) {
+void dw_frame(dw_iface *d, void *recvBuffer, size_t recvLen) {
     lltd_demultiplex_header_t *header = recvBuffer;
 
     /* :292 Derive session event from the received frame */
-    int sess_event = derive_session_event(recvBuffer, d->sessionTable, d->macAddress);
+    int sess_event = derive_session_event_len(recvBuffer, recvLen, d->sessionTable, d->macAddress);
 
     /* :297 Update session table based on received frame */
     if (header->opcode == opcode_discover) {
